@@ -12,7 +12,7 @@ FUNCTIONS = [("pandapower.build_gen", "_normalise_slack_weights"), ("pandapower.
 STUBS = ["_subnetworks (scipy.csgraph connected components on concrete indices) -> the single island", "the network term V conj(Ybus V) is an opaque complex symbol per bus (the claim does not depend on the network)",
          "Newton's convergence: the code's own mismatch function _evaluate_Fx(dist_slack=True) is evaluated and assumed to be zero"]
 ASSUMPTIONS = ["slack weights symbolic in [0.05, 5] (unnormalised), setpoints and demands symbolic, one island"]
-OUTSIDE = ["several islands (the code raises)", "xward participants: thorough", "the Jacobian's slack column (affects convergence only)"]
+OUTSIDE = ["several islands (the code raises)", "xward participants in the solver step (their result extraction is covered)", "the Jacobian's slack column (affects convergence only)"]
 BOUNDS = {"quick": "4 buses: ext_grid (w0) | two gens sharing a bus (w1, w2) | non-participating gen (weight 0) | load bus", "thorough": "same + equal weights corner"}
 
 
@@ -114,10 +114,81 @@ def make_fn(variant):
     return fn
 
 
+_XW = {}
+
+
+def _xw_net():
+    if "n" not in _XW:
+        from .common import pp
+        net = pp.create_empty_network()
+        b = [pp.create_bus(net, 110.) for _ in range(4)]
+        pp.create_ext_grid(net, b[0], slack_weight=1.0)
+        for f, t in ((0, 1), (1, 2), (2, 3), (3, 0)):
+            pp.create_line_from_parameters(net, b[f], b[t], 10., 0.1, 0.3, 10., 0.5)
+        pp.create_gen(net, b[1], 20., vm_pu=1.0, slack_weight=2.0)
+        pp.create_load(net, b[2], 40., 5.)
+        pp.create_xward(net, b[3], 5., 1., 0.5, 0.1, 1., 5., 1.0, slack_weight=1.5)
+        pp.create_xward(net, b[2], 2., 1., 0.5, 0.1, 1., 5., 1.0, slack_weight=0.5)
+        pp.create_xward(net, b[3], 3., 1., 0.5, 0.1, 1., 5., 1.0, slack_weight=1.0, in_service=False)
+        pp.create_load(net, b[3], 10., 2., scaling=0.8)
+        pp.create_load(net, b[3], 3., 1., in_service=False)
+        pp.create_sgen(net, b[3], 7., 1., scaling=1.1)
+        pp.create_storage(net, b[3], 1., 10.)
+        pp.create_ward(net, b[3], 0.4, 0.1, 0.2, 0.1)
+        pp.runpp(net, distributed_slack=True, numba=False, lightsim2grid=False)
+        _XW["n"] = net
+    return _XW["n"]
+
+
+def make_xward_results():
+    """result extraction of participating xwards: the solver leaves, at the bus of an xward, PD = consumption of all elements there + the
+    xwards' share of the slack power; the real result writers must report for every xward its constant power part plus its share, whatever
+    else sits at the bus (scaled loads, sgens, out-of-service elements, wards, storages) and however many xwards participate"""
+    def fn(ctx):
+        import copy
+        from .common import setcol
+        rb = ctx.load("pandapower.results_bus")
+        from pandapower.pypower.idx_bus import PD
+        from pandapower.results import _get_aranged_lookup
+        net = copy.deepcopy(_xw_net())
+        V = {}
+        for tab, cols in (("load", ("p_mw", "scaling")), ("sgen", ("p_mw", "scaling")), ("storage", ("p_mw",)), ("ward", ("ps_mw",)), ("xward", ("ps_mw", "slack_weight"))):
+            for c in cols:
+                lo, hi = (0.1, 2.) if c in ("scaling", "slack_weight") else (-10., 10.)
+                V[(tab, c)] = [ctx.var(f"{tab}{r}_{c}", lo, hi) for r in range(len(net[tab]))]
+                setcol(ctx, net[tab], c, V[(tab, c)])
+        share = {3: ctx.var("slack_share_at_bus3", -20., 20.), 2: ctx.var("slack_share_at_bus2", -20., 20.)}
+        ppc = {"bus": ctx.obj(net._ppc["bus"]), "gen": ctx.obj(net._ppc["gen"]), "branch": ctx.obj(net._ppc["branch"].real), "baseMVA": net._ppc["baseMVA"]}
+        lookup = net._pd2ppc_lookups["bus"]
+        ins = {t: np.asarray(net._is_elements[t], dtype=bool) for t in ("load", "sgen", "storage", "ward", "xward")}
+        for pb in (2, 3):
+            tot = share[pb]
+            for tab, col, sign in (("load", "p_mw", 1), ("sgen", "p_mw", -1), ("storage", "p_mw", 1), ("ward", "ps_mw", 1), ("xward", "ps_mw", 1)):
+                for r in range(len(net[tab])):
+                    if net[tab].bus.values[r] == pb and ins[tab][r]:
+                        sc = V[(tab, "scaling")][r] if (tab, "scaling") in V else 1.0
+                        tot = tot + sign * V[(tab, col)][r] * sc
+            ppc["bus"][lookup[pb], PD] = tot
+        for t in ("res_load", "res_sgen", "res_storage", "res_ward", "res_xward"):
+            net[t] = net[t].astype(object if ctx.symbolic else float)
+        ar = _get_aranged_lookup(net)
+        rb._get_p_q_results(net, ppc, ar)
+        w = V[("xward", "slack_weight")]
+        ps = V[("xward", "ps_mw")]
+        res = net.res_xward.p_mw.values
+        ctx.eq("xward_at_bus3_gets_its_constant_power_plus_the_whole_share_of_its_bus", res[0], ps[0] + share[3])
+        ctx.eq("xward_at_bus2_gets_its_constant_power_plus_the_whole_share_of_its_bus", res[1], ps[1] + share[2])
+        ctx.eq("out_of_service_xward_reports_nothing", res[2], 0.0)
+        ctx.eq("load_result_is_p_times_scaling", net.res_load.p_mw.values[1], V[("load", "p_mw")][1] * V[("load", "scaling")][1])
+    return fn
+
+
 def instances(tier):
     out = [Inst("shared_bus", make_fn("general"), nvars=40, samples=3, timeout_ms=60000, raises=(ValueError, NotImplementedError), meta=dict(variant="general")),
            Inst("ext_grid_weight_zero_shares_bus_with_participant", make_fn("ref_weight_zero"), nvars=40, samples=3, timeout_ms=60000,
                 raises=(ValueError, NotImplementedError), meta=dict(variant="ref_weight_zero"))]
+    out.append(Inst("xward_result_extraction", make_xward_results(), nvars=40, samples=3, timeout_ms=60000, raises=(ValueError, NotImplementedError),
+                    meta=dict(variant="participating xwards at two buses, out-of-service xward, scaled load, sgen, storage, ward, out-of-service load")))
     if tier == "thorough":
         out.append(Inst("equal_weights", make_fn("equal"), nvars=40, samples=3, timeout_ms=60000, raises=(ValueError, NotImplementedError), meta=dict(variant="equal")))
     return out
